@@ -81,10 +81,19 @@ func DecodeObjectFile(raw []byte) (*Object, error) {
 func EncodeObjectFile(kind string, body []byte) []byte {
 	var b bytes.Buffer
 	w := zlib.NewWriter(&b)
-	fmt.Fprintf(w, "%s %d\x00", kind, len(body))
-	w.Write(body)
+	w.Write(append([]byte(fmt.Sprintf("%s %d\x00", kind, len(body))), body...))
 	w.Close()
 	return b.Bytes()
+}
+
+// BodyLenForEncoded returns n such that len("<kind> n\x00") + n == total (ok=false if no such n exists).
+func BodyLenForEncoded(kind string, total int) (int, bool) {
+	for n := total - len(kind) - 3; n >= 0 && n > total-len(kind)-24; n-- {
+		if len(fmt.Sprintf("%s %d\x00", kind, n))+n == total {
+			return n, true
+		}
+	}
+	return 0, false
 }
 
 // DeflateRaw compresses arbitrary content as a zlib stream (no header added).
